@@ -2,19 +2,8 @@ package interpreter
 
 import (
 	"github.com/krotik/ecal/engine"
-	"github.com/krotik/ecal/parser"
 	zz "github.com/krotik/ecal/zzverif"
 )
-
-var c02Marks []string
-
-type c02Mark struct{ *inbuildBaseFunc }
-
-func (f *c02Mark) Run(instanceID string, vs parser.Scope, is map[string]interface{}, tid uint64, args []interface{}) (interface{}, error) {
-	c02Marks = append(c02Marks, args[0].(string))
-	return nil, nil
-}
-func (f *c02Mark) DocString() (string, error) { return "", nil }
 
 // VerifC02EcalWait: the ECAL function addEventAndWait returns only after the sinks of the event and of the child event a
 // sink added have run, and its result lists exactly the failing (event, sink) pairs with their error type; flags for
